@@ -127,6 +127,7 @@ fn engine_part(rep: &Arc<Reporter>, args: &Args) {
         for c in CIDRS { for p in PATTERNS { for a in [true, false] { variants.push((*c, *p, a)); } } }
         let addrs: Vec<IpAddr> = ADDRS.iter().map(|a| a.parse().unwrap()).collect();
         let rnds = randoms();
+        let mut samples: Vec<Value> = vec![];
         let mut check = |rules: &[(Option<&str>, Option<&str>, bool)], local: &mut Local, bad: &mut BTreeMap<String, Value>| {
             let engine = mk_engine(rules);
             for (ai, ip) in addrs.iter().enumerate() {
@@ -142,6 +143,9 @@ fn engine_part(rep: &Arc<Reporter>, args: &Args) {
                             "address":ADDRS[ai],"client_random":rnd.as_ref().map(|r| common::hex(r)),"engine":if got {"allow"} else {"deny"},"reference_allows":{"allow":may_allow,"deny":may_deny}}));
                     } else if may_allow && may_deny {
                         local.tally("engine: verdict in an EITHER zone", 1);
+                    } else if rules.len() == 2 && local.evals % 500_003 == 7 && samples.len() < 2 {
+                        samples.push(json!({"rules":rules.iter().map(|r| json!({"cidr":r.0,"client_random_prefix":r.1,"action":if r.2 {"allow"} else {"deny"}})).collect::<Vec<_>>(),
+                            "address":ADDRS[ai],"client_random":rnd.as_ref().map(|r| common::hex(r)),"verdict":if got {"allow"} else {"deny"}}));
                     }
                 }
             }
@@ -167,9 +171,9 @@ fn engine_part(rep: &Arc<Reporter>, args: &Args) {
             check(&rules, &mut local, &mut bad);
             local.distinct.push(common::fnv(format!("{:?}", rules).as_bytes()));
         }
-        (local, bad)
+        (local, bad, samples)
     });
-    for (l, b) in results { for (s, d) in b { rep.violation(&s, d); } l.merge_into(rep); }
+    for (l, b, ss) in results { for (s, d) in b { rep.violation(&s, d); } for s in ss { rep.sample(s); } l.merge_into(rep); }
 }
 
 /// rules files as the endpoint reads them
